@@ -1710,6 +1710,22 @@ class Graph:
             end_time=end_time,
             rate=rate,
         )
+        # At most one migration per (source, dest) at any time. This doesn't
+        # depend on the rates, unlike the test in migration_matrices() which
+        # can't see an earlier migration whose rate is zero.
+        for other in self.migrations:
+            if (
+                other.source == migration.source
+                and other.dest == migration.dest
+                and other.end_time < migration.start_time
+                and migration.end_time < other.start_time
+            ):
+                raise ValueError(
+                    "multiple migrations defined for "
+                    f"source={migration.source}, dest={migration.dest} "
+                    f"between start_time={min(other.start_time, migration.start_time)}, "
+                    f"end_time={max(other.end_time, migration.end_time)}"
+                )
 
         self.migrations.append(migration)
         return migration
